@@ -97,6 +97,17 @@ Theorem C10_e2e_build_spec_iff : forall (F : Type) (fcal : Z -> F -> F) (gain_of
 Proof. exact e2e_build_spec_iff. Qed.
 Print Assumptions C10_e2e_build_spec_iff.
 
+(* boards are compared by their row in ALPHA16BOARDS / PADWING_BOARDS; the row lookups of the decoded views always
+   succeed: a long ADC packet always shows its board (`unwrap_or(bank name's board)` only applies to the 16-byte
+   suppressed form), a chunk and a reassembled packet always have a board row *)
+Theorem C10_e2e_board_rows_found : forall m : ovf,
+  (forall d f lg, bytes d -> Adc.adc_decode adc_macs m d = Ok f -> Adc.a_long f = Some lg ->
+     exists r, a_board (adcv_of f) = Some r) /\
+  (forall d c, bytes d -> Chunk.chunk_decode pwb_devices m d = Ok c -> exists r, pwb_row_of_dev (Chunk.c_dev c) = Some r) /\
+  (forall cs p, reasm_e2e m cs = DOk p -> p_board p <> no_row).
+Proof. exact e2e_board_rows_found. Qed.
+Print Assumptions C10_e2e_board_rows_found.
+
 (* one rejection statement per cause named in the property text, on the RAW banks (name bytes, data bytes); bundled
    in one theorem (each `Print Assumptions` walks the whole development); the single lemmas are
    e2e_reject_* in Event/E2E_proofs.v *)
